@@ -192,3 +192,8 @@ Proof.
   destruct (digits_space_split _ _ _ _ (show_nat_digits _) (show_nat_digits _) E3) as [_ ->].
   split; reflexivity.
 Qed.
+
+(* the in-toto payload type spelled out (c_PayloadType is regenerated from the Go source) *)
+Lemma pae_in_toto b :
+  pae c_PayloadType b = bs "DSSEv1 28 application/vnd.in-toto+json " ++ show_nat (length b) ++ [32] ++ b.
+Proof. reflexivity. Qed.
